@@ -187,6 +187,13 @@ func runC05(r *rt.Runner) {
 					A.WriteString(txt + "\n")
 				}
 			}
+			if rng.IntN(8) == 0 {
+				// many dictionaries already open when the section starts: up to the
+				// last free slot of the dictionary stack (and the full stack)
+				k := []int{14, 15, 16, 17, 18}[rng.IntN(5)]
+				fmt.Fprintf(&A, "%d { 1 dict begin } repeat\n", k)
+				c.Count("sections started on a deep dictionary stack")
+			}
 			P, hasBin := genEexecPlain(c, env, full)
 			closes := rng.IntN(10) > 0
 			plain := append([]byte(nil), P...)
